@@ -137,4 +137,8 @@ MetricLaws == \A p, q \in Box :
                  /\ (D2(p, q) = 0 <=> p = q)
 
 MetricLawsOnce == (nops = 0) => MetricLaws
+
+(* the state without the operation counter and the label of the last operation: with this VIEW and no bound on  *)
+(* the counter TLC computes the complete reachable set of the instance - every history of any length (NB_fix.cfg) *)
+FixView == <<pos, defined, treeOf, trees>>
 =============================================================================
